@@ -87,14 +87,19 @@ func genCase(t *rapid.T) Case {
 	if !hx.Thorough() && c.Sizes.Max > 16384 {
 		c.Sizes = gen.Sizes{Min: 64, Avg: 256, Max: 1024}
 	}
+	if hx.Thorough() && rapid.IntRange(0, 24).Draw(t, "defaultsizes") == 0 {
+		c.Sizes = gen.Sizes{Min: 16 << 10, Avg: 64 << 10, Max: 256 << 10} // the CLI's default 16:64:256
+	}
 	mx := int(c.Sizes.Max)
 	mn := int(c.Sizes.Min)
 	nmax := rapid.SampledFrom([]int{1, 2, 3, 4, 5, 8, 16}).Draw(t, "nmax")
 	// total length: around multiples of max, of span boundaries, and (k+1/2)*max*n
 	mult := rapid.IntRange(1, hx.Pick(40, 120)).Draw(t, "mult")
 	maxLen := mx * mult
-	if maxLen > hx.Pick(300_000, 4_000_000) {
-		maxLen = hx.Pick(300_000, 4_000_000)
+	if lim := hx.Pick(300_000, 4_000_000); maxLen > lim && c.Sizes.Max < 256<<10 {
+		maxLen = lim
+	} else if maxLen > 12<<20 {
+		maxLen = 12 << 20
 	}
 	shape := rapid.IntRange(0, 9).Draw(t, "shape")
 	switch {
@@ -431,6 +436,9 @@ func run(c Case) (o hx.Outcome) {
 	}
 	if degenerate {
 		o.Class("min=max")
+	}
+	if sz.Max == 256<<10 {
+		o.Class("default-sizes-16:64:256")
 	}
 	if effN >= 2 {
 		o.Class("effective-n>=2")
